@@ -308,6 +308,25 @@ func genUnits(r *wk.Rand, label string) (*refUnits, *schema.UnitsDefinition) {
 	return ref, schema.NewUnits(schema.NewUnit(b[0], b[1], b[2], b[3]), mm)
 }
 
+// siblingUnits: a second definition with exactly the names of u and different multipliers (m -> 2m+1, which keeps
+// them distinct and in the same order). Two definitions that differ in nothing but their numbers live side by side in
+// one process whenever a plugin and the engine disagree on decimal vs binary prefixes; what one of them has been asked
+// must not change what the other answers.
+func siblingUnits(u *refUnits) (*refUnits, *schema.UnitsDefinition) {
+	sib := &refUnits{label: u.label + "-sibling", base: u.base}
+	mm := map[int64]*schema.UnitDefinition{}
+	for _, m := range u.mults {
+		if m.mult > (1<<61) {
+			return nil, nil
+		}
+		m2 := refUnit{2*m.mult + 1, m.names}
+		sib.mults = append(sib.mults, m2)
+		mm[m2.mult] = schema.NewUnit(m2.names[0], m2.names[1], m2.names[2], m2.names[3])
+	}
+	b := sib.base.names
+	return sib, schema.NewUnits(schema.NewUnit(b[0], b[1], b[2], b[3]), mm)
+}
+
 func (u *refUnits) describe() map[string]any {
 	ms := []any{}
 	for _, m := range u.mults {
@@ -695,13 +714,14 @@ func c16RebuildUnits(u *schema.UnitsDefinition) (out *schema.UnitsDefinition) {
 
 func runC16(c *wk.Ctx) {
 	t := &c16{c}
-	c.Meta("rule", "cases: (a) every integer in [0,200000] x 5 built-in + 3 generated unit sets x {short,long} format->ParseInt; (b) per generated definition (names with regexp metacharacters / prefixes of each other, arbitrary multipliers; every third one rebuilt from the description of a schema that uses it, as a client receives it) and per built-in set: powers of ten +-1, multiplier boundaries +-1, random 63-bit ints, floats with <=6 decimals, generated well-formed strings and near-miss mutants compared with a big-rational reference parser, also through IntSchema/FloatSchema.Unserialize. distinct = hash(units definition, operation, input); every case is non-trivial (a formatted/parsed quantity); evaluations counts individual format/parse checks Generated definitions contain names that differ in case only; a near-miss class changes the case of letters.")
+	c.Meta("rule", "cases: (a) every integer in [0,200000] x 5 built-in + 3 generated unit sets x {short,long} format->ParseInt; (b) per generated definition (names with regexp metacharacters / prefixes of each other, arbitrary multipliers; every third one rebuilt from the description of a schema that uses it, as a client receives it) and per built-in set: powers of ten +-1, multiplier boundaries +-1, random 63-bit ints, floats with <=6 decimals, generated well-formed strings and near-miss mutants compared with a big-rational reference parser, also through IntSchema/FloatSchema.Unserialize. distinct = hash(units definition, operation, input); every case is non-trivial (a formatted/parsed quantity); evaluations counts individual format/parse checks Generated definitions contain names that differ in case only; a near-miss class changes the case of letters. Every built-in set and about a third of the generated definitions are followed, in the same process, by a sibling definition with the same names and other multipliers (m -> 2m+1), and then used again themselves.")
 	c.Meta("assumptions", []string{"floats with at most six decimals must come back within 1e-9 relative (the formatter prints %f); floats with more decimals, down to values that print as zero, must come back as a number within 1e-6 absolute",
 		"bare numbers without a unit name, repeated units, fractions on non-base units and leading zeros are unspecified: only 'never a wrong number' is checked for them"})
 	c.Floor("int_roundtrips", 1000)
 	c.Floor("float_roundtrips", 100)
 	c.Floor("strings_well", 100)
 	c.Floor("strings_ill", 100)
+	c.Floor("sibling_definitions", 5)
 	bi := builtinUnits()
 	type pair struct {
 		ref *refUnits
@@ -805,6 +825,25 @@ func runC16(c *wk.Ctx) {
 				doFloats()
 				doInts()
 				doStrings()
+			}
+			// a sibling definition (same names, other multipliers) used in the same process, then the first one again:
+			// each must go on answering by its own numbers
+			if len(ref.mults) > 0 && (k < int64(len(fixed)) || r.Chance(35)) {
+				if sref, ssdk := siblingUnits(ref); sref != nil {
+					ref0, sdk0 := ref, sdk
+					ref, sdk = sref, ssdk
+					c.Count("sibling_definitions")
+					if r.Bool() {
+						doStrings()
+						doInts()
+					} else {
+						doInts()
+						doStrings()
+					}
+					ref, sdk = ref0, sdk0
+					doStrings()
+					doInts()
+				}
 			}
 			if k >= int64(len(fixed)) && k < int64(len(fixed))+3 {
 				c.Sample("generated-definition", ref.describe())
